@@ -79,7 +79,7 @@ var mgrApp *tars.VerifApp
 func managerPhase(r *rand.Rand) {
 	mgrApp = tars.VerifNewApp()
 	rounds := run.Pick(3, 30)
-	kinds := []string{"static-then-mixed", "loop-then-static", "superset-then-subset", "status-check-removes-endpoint", "mixed-then-static", "weight-changed-while-down"}
+	kinds := []string{"static-then-mixed", "loop-then-static", "superset-then-subset", "status-check-removes-endpoint", "mixed-then-static", "weight-changed-while-down", "mixed-odd-endpoint-down-refresh-recover"}
 	for round := 0; round < rounds; round++ {
 		for ki, kind := range kinds {
 			managerScenario(r, round*len(kinds)+ki, kind)
@@ -166,6 +166,20 @@ func managerScenario(r *rand.Rand, id int, kind string) {
 		ws2[victim] = wspec{ws[victim].w%6 + 3, 1}
 		final = mk(all, ws2)
 		weighted = true
+		recover = true
+	case "mixed-odd-endpoint-down-refresh-recover":
+		// mixed weight types (one loop endpoint among static ones, not the first by host): the set
+		// is unweighted.  The loop endpoint fails and is taken out; while it is out the registry
+		// answer changes (another endpoint's weight); it recovers through a probe.  The set is still
+		// mixed, so a fresh client routes unweighted.
+		ws := rw(1)
+		victim = 1 + (id/8)%(n-1)
+		ws[victim] = wspec{0, 0}
+		first = mk(all, ws)
+		ws2 := append([]wspec(nil), ws...)
+		other := (victim + 1) % n
+		ws2[other] = wspec{ws[other].w%6 + 2, 1}
+		final = mk(all, ws2)
 		recover = true
 	case "status-check-removes-endpoint":
 		first = mk(all, rw(0))
